@@ -365,7 +365,14 @@ def handle (s : DState) (toks : List String) : IO DState := do
       | _ => none
     match op with
     | none =>
-      if rest == ["counts"] then
+      if let ["multi", n] := rest then
+        -- `System.simulate_multiple_times(f, n, 0)` with `f = simulate(0)`: n times (System(); simulate)
+        let m := (List.range (parseNat n)).foldl (fun (m : SysM) _ =>
+          let m1 := (m.apply .new).1
+          (m1.apply (.simulate (m1.systems.length - 1))).1) s.sysm
+        IO.println "sres ok"
+        return { s with sysm := m }
+      else if rest == ["counts"] then
         IO.println ("scount " ++ joinS (s.sysm.infos.map (fun a => toString a.initCount)))
         return s
       else IO.println "model-error bad-op"; return s
